@@ -152,18 +152,14 @@ for _f in FUNCS:
     _make_container(_f)
 
 
-def kf_oneshot(failure):
-    """Known defect: is_insertion_encodable traverses its argument twice (rightmost,
-    then maximum); a one-shot iterator is exhausted by the first traversal, so a
-    basis that is encodable only by maximum is reported as not encodable."""
-    kind, perms = codec.dec(failure["input"])
-    b = _tuples(perms)
-    return (
-        kind in ONE_SHOT
-        and not G.spec_rightmost(b)
-        and G.spec_maximum(b)
-        and failure.get("expected") == "True"
-        and failure.get("actual") == "False"
+def kf_av_oneshot(failure):
+    """Known defect: Av.from_iterable (also reached through Av(iterable)) first
+    scans its argument in MeshBasis.is_mesh_basis and then unpacks it again into
+    Basis(*basis); a one-shot iterator is empty the second time, so the constructor
+    raises the 'empty basis' ValueError."""
+    how, _perms = codec.dec(failure["input"])
+    return how in ("generator", "from_iterable") and failure.get("actual", "").startswith(
+        "raised ValueError: Basis should be non-empty"
     )
 
 
@@ -314,6 +310,7 @@ def memo(item):
 
 
 # ------------------------------------------------------------- symmetries
+POLY_CAP = 30000
 KEEP_HORIZONTAL = ("id", "reverse", "complement", "r2")
 
 
@@ -350,7 +347,7 @@ def symmetry(basis):
 def enumeration(item):
     """The verdicts of the real functions against the real counting sequence of
     Av(B) (permuta's Av: property C02)."""
-    basis, nmax = item
+    basis, nmax, polymax = item
     from permuta import Av, Basis
 
     fresh = _fresh(basis)
@@ -386,17 +383,25 @@ def enumeration(item):
                 return bad(f">= {G.fib_lower_bound(n)}", c,
                            f"declared non-polynomial but |Av_{n}| is below the Fibonacci bound; sequence {seq}")
         return ok(True)
-    # declared polynomial (and infinite): necessary conditions on the initial segment
-    seq = av.enumeration(max(nmax, 12))
-    deg = G.eventually_polynomial_degree(seq, tail=3)
-    below = [n for n, c in enumerate(seq) if c < G.fib_lower_bound(n)]
-    if deg is None or deg > 5:
-        return bad("finite differences of some order <= 5 constant on the last three lengths", seq,
-                   "declared polynomial but the counting sequence does not look polynomial")
-    if not below:
-        return bad("some |Av_n| < Fib bound (Fibonacci dichotomy)", seq,
-                   "declared polynomial but the sequence stays above the Fibonacci numbers up to length 12")
-    return ok(True)
+    # declared polynomial (and infinite): a necessary condition on an initial segment.
+    # |Av_n| = q(n) for a polynomial q of degree d from some n0 on, so the (d)-th
+    # differences are constant from there on.  The segment is extended until that
+    # is visible on three consecutive entries; if the class gets too big first, or
+    # polymax is 0, the case is inconclusive (never a failure).
+    if not polymax:
+        return ok(False)
+    seq = list(seq)
+    while True:
+        deg = G.eventually_polynomial_degree(seq, tail=3)
+        if deg is not None:
+            return ok(True)
+        if seq[-1] > POLY_CAP:
+            return ok(False)
+        if len(seq) > polymax:
+            break
+        seq.append(av.count(len(seq)))
+    return bad(f"differences of some order constant on the last three of lengths 0..{polymax}", seq,
+               "declared polynomial but the counting sequence does not become polynomial")
 
 
 # ------------------------------------------------------------------- domains
@@ -509,13 +514,14 @@ def run(ctx):
 
     # --- enumeration
     nmax = 8 if quick else 9
-    enum = [(b, nmax) for b in small1]
-    enum += [(b, nmax) for b in (rng.sample(triples1, 250) if quick else triples1)]
-    enum += [(b, nmax) for b in designed[: (60 if quick else 600)]]
+    enum = [(b, nmax, 12) for b in small1]
+    enum += [(b, nmax, 12) for b in (rng.sample(triples1, 250) if quick else triples1)]
+    enum += [(b, nmax, 0) for b in designed[: (60 if quick else 600)]]
     ctx.run("C13.enumeration", enum, chunk=8,
             rule=f"non-empty bases without the empty perm; finite => empty at the Erdos-Szekeres bound and one beyond; "
                  f"infinite => non-empty up to {nmax}; non-polynomial => |Av_n| >= 1,1,2,3,5,8,... up to {nmax}; "
-                 f"polynomial => some order <= 5 of differences constant on lengths 10-12 and below Fibonacci somewhere")
+                 f"polynomial (bases of perms <= 4 only) => differences of some order constant on three consecutive lengths "
+                 f"<= 12 (inconclusive when a level exceeds {POLY_CAP} perms first)")
     ctx.assumptions += [
         "B layer: bounded; structure theorems (Erdos-Szekeres, Kaiser-Klazar/Huczynska-Vatter/Homberger-Vatter ten "
         "classes, Albert-Linton-Ruskuc four classes) are used as stated, not proved",
